@@ -149,3 +149,39 @@ Example C14_side_condition_nonvacuous :
   /\ lex_text (render bad2) = expected_tokens [ P T_IntVal "-1" ]%string
   /\ no_conservative ex_pieces = false /\ conservative T_IntVal (cps "0x1F") = true.
 Proof. vm_compute. repeat split; reflexivity. Qed.
+
+(** * The model IS the source: coq/gen/GenLexer.v is regenerated from crates/syntax/src/lexer.rs on every run
+    (tools/translate/t_lexer.py: every function rendered statement by statement in the shallow state-monad
+    embedding of model/ScanMonad.v); run through the TokenStream protocol (cursor, eat, cursor, take_error iff
+    Error, text) it yields, for EVERY text, exactly the token list of the hand model Lexer.lex_text (kinds,
+    error messages, lexemes).  Every theorem above therefore also holds of the regenerated rendering, and any
+    semantic edit of lexer.rs changes GenLexer.v and breaks this obligation. *)
+From TG.Gen Require GenLexer.
+From TG.Model Require ScanMonad.
+From TG.Proofs Require GenLexerEq.
+
+Theorem C14_model_is_source : forall txt : stext,
+  GenLexerEq.gen_lex_text txt = map GenLexerEq.hand_view (lex_text txt).
+Proof. exact GenLexerEq.gen_lex_text_eq. Qed.
+Check C14_model_is_source : forall txt : stext,
+  GenLexerEq.gen_lex_text txt = map GenLexerEq.hand_view (lex_text txt).
+Print Assumptions C14_model_is_source.
+
+(** per call of `next_token`: the generated function run with [b] before the cursor and [s] after it and
+    any content of the error slot ends in the state and with the kind the list function [lex_one] prescribes *)
+Theorem C14_next_token_is_source : forall (b s : stext) (e : option string),
+  GenLexer.g_next_token (GenLexerEq.stt b s e) = GenLexerEq.outcome b e (lex_one s).
+Proof. exact GenLexerEq.next_token_eq. Qed.
+Check C14_next_token_is_source : forall (b s : stext) (e : option string),
+  GenLexer.g_next_token (GenLexerEq.stt b s e) = GenLexerEq.outcome b e (lex_one s).
+Print Assumptions C14_next_token_is_source.
+
+(** conformance stated directly of the source rendering *)
+Theorem C14_conforms_source : forall ps : list piece,
+  forallb valid_piece ps = true -> not_merged ps = true ->
+  GenLexerEq.gen_lex_text (render ps) = map GenLexerEq.hand_view (expected_tokens ps).
+Proof. exact LexConform.conforms_source. Qed.
+Check C14_conforms_source : forall ps : list piece,
+  forallb valid_piece ps = true -> not_merged ps = true ->
+  GenLexerEq.gen_lex_text (render ps) = map GenLexerEq.hand_view (expected_tokens ps).
+Print Assumptions C14_conforms_source.
